@@ -13,7 +13,7 @@ import (
 func init() {
 	register(&Prop{
 		ID:   "C13",
-		Rule: "rule sets of 2-8 observer rules, layerings of 0-5 layers x 0-4 names (unknown names, empty layers, repeated names inside and across layers), random failing subset, schedule with 1-2 rules of a non-final layer parked on a Hold gate until the event log is quiet; engine and pool; oracle = reference DAG predicate (per-layer multiset of executions, barrier by sequence numbers, first failing layer is the last started, error iff failure, result map). Non-trivial: >=2 non-empty layers ran with a parked rule before a later start, or a failure in a non-final layer; distinct by case hash",
+		Rule: "rule sets of 2-8 observer rules, layerings of 0-5 layers x 0-4 names (unknown names, empty layers, repeated names inside and across layers), random failing subset (failing statement drawn from 12 forms as in C04), schedule with 1-2 rules of a non-final layer parked on a Hold gate until the event log is quiet; engine and pool; oracle = reference DAG predicate (per-layer multiset of executions, barrier by sequence numbers, first failing layer is the last started, error iff failure, result map). Non-trivial: >=2 non-empty layers ran with a parked rule before a later start, or a failure in a non-final layer; distinct by case hash",
 		New:  func() interface{} { return &SchedCase{} },
 		Gen: func(t *rapid.T) interface{} {
 			c := &SchedCase{QuiesMs: quiesMs()}
